@@ -21,14 +21,11 @@ from fractions import Fraction
 from harness import core
 from harness.core import qlit, zlit, listlit, boollit, optlit, natlit
 
-try:
-    from translate import comparers as tr_comparers
-except Exception:                                         # pragma: no cover
-    tr_comparers = None
+from translate import comparers as tr_comparers
 
 ID = 'C16'
 PROPS = 'Props/C16.v'
-TRANSLATORS = [('Gen/Comparers.v', tr_comparers.generate)] if tr_comparers else []
+TRANSLATORS = [('Gen/Comparers.v', tr_comparers.generate)]
 MIRRORED = [
     ('mitxgraders/comparers/comparers.py', 'EqualityComparer'),
     ('mitxgraders/comparers/comparers.py', 'MatrixEntryComparer'),
@@ -597,10 +594,12 @@ def gen_between(rng, n):
 
 def gen_congruence(rng, n):
     out = []
-    kinds = ['shift', 'near', 'far', 'near', 'far', 'at', 'cplx', 'shift', 'near', 'far']
+    kinds = ['shift', 'near', 'far', 'near', 'far', 'at', 'cplx', 'shift', 'near', 'far', 'band']
     for i in range(n):
         exact = rng.random() < 0.4
         kind = kinds[i % len(kinds)]
+        if kind == 'band':
+            exact = False
         if exact:
             m = rng.choice([2, 3, 4, 5, 7, -3, -4, 0.5])
             t = rng.randint(-9, 9) + rng.choice([0, 0, 0.5, 0.25])
@@ -608,7 +607,9 @@ def gen_congruence(rng, n):
         else:
             m = rng.choice([2 * math.pi, 360.0, 1.0, 0.7, -3.3, 24.0])
             t = rng.choice([0.0, round(rng.uniform(-3, 3) * abs(m), 4), round(rng.uniform(0, 1) * 1e-7 * abs(m), 12)])
-            tolerance = rtol(rng)
+            tolerance = rtol(rng) if kind != 'band' else rng.choice(['5%', '1%', '10%'])
+            if kind == 'band':
+                t = round(rng.uniform(0.2, 0.7) * abs(m), 4) * (1 if m > 0 else -1)
         k = rng.randint(-4, 4)
         er = float(Fraction(t) - Fraction(m) * math.floor(Fraction(t) / Fraction(m)))
         tol = tol_value(tolerance, abs(er)) if isinstance(tolerance, str) else tolerance
@@ -620,6 +621,10 @@ def gen_congruence(rng, n):
             s = base + Fraction(sign * rng.choice([0.25, 0.5, 0.75]) * (tol if tol > 0 else 0))
         elif kind == 'at':
             s = base + Fraction(sign * tol)
+        elif kind == 'band':
+            # just outside / inside the percentage tolerance: tells apart which operand the percentage is relative to
+            p = float(tolerance[:-1]) * 0.01
+            s = base + Fraction(sign * tol * (1 + rng.choice([-1, 1]) * p / 2))
         elif kind == 'far':
             far = max(1000 * tol * rng.choice([1, 3]), 1e-3 * abs(m) if not exact else abs(m) * 0.25)
             s = base + Fraction(sign * min(far, abs(m) * 0.45))
@@ -712,15 +717,15 @@ def span_distance(ws, v):
 
 def gen_span(rng, n):
     out = []
-    kinds = ['member', 'nonmember', 'member', 'nonmember', 'zero', 'shape', 'dependent', 'nonmember', 'square']
+    kinds = ['member', 'nonmember', 'member', 'nonmember', 'zero', 'shape', 'dependent', 'nonmember', 'square', 'tiny']
     for i in range(n):
         kind = kinds[i % len(kinds)]
         dim = rng.choice([2, 3, 3, 4])
         cplx = rng.random() < 0.6
         ints = rng.random() < 0.4
-        fine = rng.random() < 0.15
+        fine = rng.random() < 0.15 and kind != 'tiny'
         pol = rng.choice(POLICIES)
-        tolerance = rtol(rng)
+        tolerance = rtol(rng) if kind != 'tiny' else rng.choice([1e-9, '0.00000001%'])
         if kind == 'dependent':
             k = rng.choice([2, 3]) if dim > 2 else 2
             base = independent(rng, k - 1, dim, cplx, True)
@@ -746,11 +751,13 @@ def gen_span(rng, n):
         mnorm = math.sqrt(sum(abs(z) ** 2 for z in member))
         expect = {'kind': 'member'}
         st = vec_str(member)
-        if kind in ('nonmember', 'dependent') and len(true_span) < dim:
+        if kind in ('nonmember', 'dependent', 'tiny') and len(true_span) < dim:
             f = rng.choice([0.125, 0.5, 2.0]) if not fine else rng.choice([0.01, 0.3, 2.0])
+            if kind == 'tiny':                      # between 10^3 x tolerance and sqrt(tolerance)
+                f = 2.0 ** -16
             j = rng.randrange(dim)
             v = list(member)
-            v[j] = v[j] + f * max(1.0, round(mnorm)) * rng.choice([1, -1, 1j])
+            v[j] = v[j] + f * (max(1.0, round(mnorm)) if kind != 'tiny' else 1.0) * rng.choice([1, -1, 1j])
             d = span_distance(true_span, v)
             st = vec_str(v)
             expect = {'kind': 'span-nonmember', 'dist': d, 'dependent': kind == 'dependent'}
@@ -767,12 +774,12 @@ def gen_span(rng, n):
 
 def gen_phase(rng, n):
     out = []
-    kinds = ['member', 'scaled', 'member', 'twisted', 'perturbed', 'zero', 'shape', 'member', 'scaled']
+    kinds = ['member', 'scaled', 'member', 'twisted', 'perturbed', 'zero', 'shape', 'member', 'scaled', 'tiny']
     for i in range(n):
         kind = kinds[i % len(kinds)]
         dim = rng.choice([2, 3, 4])
         ints = rng.random() < 0.4
-        fine = rng.random() < 0.15
+        fine = rng.random() < 0.15 and kind != 'tiny'
         t = rvec(rng, dim, True, ints=ints, fine=fine)
         pol = rng.choice(POLICIES)
         tolerance = rtol(rng)
@@ -788,6 +795,13 @@ def gen_phase(rng, n):
         elif kind == 'perturbed':
             w = rvec(rng, dim, True, fine=fine)
             st = vec_str([u * z + rng.choice([1e-3, 0.05, 0.7] if fine else [0.0078125, 0.0625, 0.75]) * y for z, y in zip(t, w)])
+        elif kind == 'tiny':
+            tolerance = rng.choice([1e-9, '0.00000001%'])
+            if rng.random() < 0.5:
+                st = vec_str([(1 + 2.0 ** -16) * u * z for z in t])
+            else:
+                j = rng.randrange(dim)
+                st = vec_str([u * z + (2.0 ** -16 if jj == j else 0) for jj, z in enumerate(t)])
         elif kind == 'zero':
             st, expect = vec_str([0] * dim), {'kind': 'nonmember'}
         else:
@@ -804,6 +818,7 @@ def gen_entry(rng, n):
         shape = rng.choice([(2,), (3,), (4,), (2, 2), (2, 3), (3, 3), (3, 2), (1, 3)])
         rows, cols = (1, shape[0]) if len(shape) == 1 else shape
         use_vars = rng.random() < 0.3 and not exact
+        sometimes = rng.random() < 0.12
         tolerance = rng.choice([0.5, 0.25, '1%', 0]) if exact else rtol(rng)
         pc = rng.choice([0, 0.3, 0.5, 1, 'proportional', 'proportional', 0.75, 0.0, 1.0])
         ag = rng.choice([1, 1, 0.5])
@@ -812,6 +827,11 @@ def gen_entry(rng, n):
         bad = set(range(N)) if mode == 'none' else set() if mode in ('all', 'shape') else set(rng.sample(range(N), rng.randint(1, N - 1)))
         exp_entries, stu_entries = [], []
         for j in range(N):
+            if sometimes and j == 0:
+                # equal to the expected entry only when the sampled k happens to be 2: matches in some samples, not in others
+                exp_entries.append('2*k')
+                stu_entries.append('k+2')
+                continue
             if use_vars and rng.random() < 0.5:
                 c = rng.choice([1, 2, 3])
                 e_txt, mag = '%d*x' % c, 5.0 * c
@@ -850,9 +870,12 @@ def gen_entry(rng, n):
         spec = {'grader': 'Matrix', 'cmp': {'name': 'entry', 'cfg': {'entry_partial_credit': pc}}, 'params': [arr(exp_entries)],
                 'tolerance': tolerance, 'student': st, 'expect': expect, 'exact': exact, 'policy': pol, 'ag': ag,
                 'samples': rng.choice([1, 2, 3])}
-        if use_vars:
-            spec['variables'] = ['x']
-            spec['sample_from'] = {'x': ['real', 1, 5]}
+        if use_vars or sometimes:
+            spec['variables'] = ['x', 'k']
+            spec['sample_from'] = {'x': ['real', 1, 5], 'k': ['int', 1, 3]}
+        if sometimes:
+            spec['samples'] = rng.choice([2, 3, 4])
+            spec['exact'] = False
         out.append(spec)
     return out
 
@@ -873,7 +896,10 @@ def gen_linear(rng, n):
         cplx = sampling == 'complex' or rng.random() < 0.15
         a = rng.choice([1, 1, 2, -3, 0.5, complex(1, 1) if cplx else 4, 0])
         b = rng.choice([0, 0, 1, -2, 0.25, complex(0, 1) if cplx else 3])
-        form = rng.choice(['lin', 'lin', 'lin', 'lin', 'square', 'zero', 'const', 'shape' if vector else 'lin', 'iso' if vector else 'lin'])
+        form = rng.choice(['lin', 'lin', 'lin', 'lin', 'square', 'zero', 'const', 'shape' if vector else 'lin', 'iso' if vector else 'lin',
+                           'tiny' if sampling == 'int' else 'lin'])
+        if form == 'tiny':
+            tolerance = rng.choice([1e-9, '0.00000001%'])
         if vector:
             E = rng.choice(['[x, y]', '[x, x^2, 1]' if sampling == 'int' else '[y, x]', '[x+y, x-y]',
                             '[0, 0]' if form == 'zero' and rng.random() < 0.5 else '[x, 2*y]'])
@@ -891,6 +917,8 @@ def gen_linear(rng, n):
             elif form == 'iso':
                 offs = rng.choice([[1, 1j], [1j, 1], [2, -2j]]) + [0] * (dim - 2)
                 S = '%s+%s' % (E, vec_str(offs))
+            elif form == 'tiny':
+                S = '%s+%s*[x^3, y^2%s]' % (S, fnum(2.0 ** -24), ', x*y' if dim == 3 else '')
             grader = 'Matrix'
         else:
             E = rng.choice(['x', 'x^2+1', '3', 'x*y', '0' if form == 'zero' and rng.random() < 0.5 else '2*x'])
@@ -901,9 +929,12 @@ def gen_linear(rng, n):
                 S = '0'
             elif form == 'const':
                 S = fnum(rng.choice([3, 6, 1.5, -2]))
+            elif form == 'tiny':
+                S = '%s+%s*x^3' % (S, fnum(2.0 ** -24))
             grader = rng.choice(['Formula', 'Matrix'])
         variables = ['x', 'y']
-        sf = {v: {'int': ['int', 1, 30], 'real': ['real', 1, 5], 'complex': ['complex', 1, 3]}[sampling] for v in variables}
+        sf = {v: {'int': ['int', 1, 30] if form != 'tiny' else ['int', 1, 6], 'real': ['real', 1, 5], 'complex': ['complex', 1, 3]}[sampling]
+              for v in variables}
         spec = {'grader': grader, 'cmp': {'name': 'linear', 'cfg': cfg}, 'params': [E], 'tolerance': tolerance, 'student': S,
                 'expect': {'kind': 'wrongshape'} if form == 'shape' else {'kind': 'linear'}, 'exact': False,
                 'variables': variables, 'sample_from': sf, 'samples': samples, 'ag': rng.choice([1, 1, 0.5]),
@@ -1196,7 +1227,31 @@ def oracle(spec, run):
                                                % (dist, tol_max, describe(run))}
         return None
     if kind == 'entry':
-        bad, n, pc = exp['bad'], exp['n'], exp['pc']
+        # which entries match is decided here from the recorded evaluations, entry by entry and sample by sample
+        pc = exp['pc']
+        try:
+            Es = [np.array(p[0], dtype=complex).reshape(-1) for p in call['params']]
+            Ss = [np.array(s_, dtype=complex).reshape(-1) for s_ in call['student']]
+        except Exception:
+            return None
+        if not Es or any(e.shape != s_.shape for e, s_ in zip(Es, Ss)):
+            return None
+        n = len(Es[0])
+        bad = 0
+        for j in range(n):
+            state = 'match'
+            for e, s_ in zip(Es, Ss):
+                d = abs(e[j] - s_[j])
+                te = tol_value(tolerance, abs(e[j]))
+                if d == 0 or (spec.get('exact') and d <= te) or d <= 0.5 * te:
+                    continue
+                if (spec.get('exact') and d > te) or (d >= 1000 * te and d > 1e-9 * max(1.0, abs(e[j]))):
+                    state = 'bad'
+                    break
+                state = 'undecided'
+            if state == 'undecided':
+                return None
+            bad += state == 'bad'
         if bad == 0:
             want = ag
         elif bad == n:
@@ -1206,7 +1261,7 @@ def oracle(spec, run):
         else:
             want = ag * pc
         if run.status != 'ret' or abs(run.out.get('grade_decimal', -1) - want) > 1e-9 or (want == 0) != (run.out.get('ok') is False):
-            return {'what': '%d of %d entries wrong, entry_partial_credit=%r, answer grade %r: expected grade %r, %s'
+            return {'what': '%d of %d entries wrong (in at least one sample), entry_partial_credit=%r, answer grade %r: expected grade %r, %s'
                     % (bad, n, pc, ag, want, describe(run))}
         return None
     if kind == 'linear':
@@ -1305,16 +1360,20 @@ def spec_key(spec):
 def all_specs(ctx):
     rng = random.Random(7919 * ctx['seed'] + 16)
     quick = ctx['tier'] == 'quick'
-    mult = 1 if quick else 8
+    changed = ctx.get('fingerprints_changed') or []
+    # a real source change (some, not all, mirrored functions differ from the recorded fingerprints) or a broken
+    # obligation escalates the quick tier; "all differ" means no fingerprint has been recorded yet
+    escalated = quick and (bool(ctx.get('broken')) or 0 < len(changed) < len(MIRRORED))
+    mult = 10 if not quick else 3 if escalated else 1
     specs = corpus() + shape_grid()
-    specs += gen_between(rng, 110 * mult)
-    specs += gen_congruence(rng, 200 * mult)
-    specs += gen_eigen(rng, 160 * mult)
-    specs += gen_span(rng, 200 * mult)
-    specs += gen_phase(rng, 160 * mult)
-    specs += gen_entry(rng, 180 * mult)
-    specs += gen_linear(rng, 220 * mult)
-    specs += gen_equality(rng, 100 * mult)
+    specs += gen_between(rng, 90 * mult)
+    specs += gen_congruence(rng, 150 * mult)
+    specs += gen_eigen(rng, 120 * mult)
+    specs += gen_span(rng, 150 * mult)
+    specs += gen_phase(rng, 120 * mult)
+    specs += gen_entry(rng, 140 * mult)
+    specs += gen_linear(rng, 150 * mult)
+    specs += gen_equality(rng, 80 * mult)
     for i, s in enumerate(specs):
         s.setdefault('seed', (ctx['seed'] * 100003 + i) % (2 ** 31))
     return specs
@@ -1403,15 +1462,15 @@ def classify_known(w, known_entries):
     return None
 
 
-LEVEL_TEXT = ('Theorems over exact (Gaussian-rational) arithmetic for all vector lengths, moduli and tolerances: between (iff for float-typed '
+LEVEL_TEXT = ('Theorems over exact (Gaussian-rational) arithmetic for all vector lengths, numbers of vectors, moduli and tolerances: between (iff for float-typed '
               'values, soundness), congruence (soundness, shift invariance, exact members, exact characterisation "congruent without crossing '
               'the wrap"), eigenvector (iff, exact class at zero tolerance, members under any rescaling, scale invariance for percentage '
               'tolerances), least squares (the documented residual is the minimum distance to the complex span and is attained by explicit '
-              'coefficients), span (iff for independent vectors fewer than the dimension, members, rank-deficient behaviour), phase (exact class '
+              'coefficients; rank <= dimension; full rank spans everything), span (iff for every independent family, members, rank-deficient behaviour), phase (exact class '
               'at zero tolerance, members, soundness), MatrixEntryComparer (entry diagram, three-way credit rule, full/zero iff), LinearComparer '
               '(best configured mode among those that hold, the meaning of the four relations, zero rule), shape-mismatch policy for every '
               'shape-validating comparer. Five sub-statements are false of the faithful model and carry _refuted theorems with witnesses.')
-LEVEL_NOTE = ('Partial where stated: span iff lacks the case of as many independent vectors as the dimension; phase "within tolerance" is '
+LEVEL_NOTE = ('Partial where stated: phase "within tolerance" is '
               'soundness + completeness for exact members + exactness at zero tolerance; equals/offset relations are characterised for real '
               'samples (complex samples are a refuted defect). Least-squares numerics, IEEE rounding and numpy are oracles/modelled; trusted: '
               'Coq kernel, harness/props/c16.py, translate/comparers.py; no axioms.')
